@@ -361,6 +361,23 @@ def run_dataset(case):
   # coordinate values of the labelled dataset
   if 'level' in ds.coords and not np.array_equal(ds['level'].values, vert.centers):
     return out.fail(what='level coordinate values wrong')
+  # coordinate labels of the horizontal axes: the grid's own node positions (longitude offset included) in degrees,
+  # respectively the wavenumbers of the modal layout -- the labels must describe the same discretisation as the attrs
+  if case['space'] == 'nodal':
+    lon_want = np.asarray(g.nodal_axes[0]) * 180 / np.pi
+    lat_want = np.arcsin(np.asarray(g.nodal_axes[1])) * 180 / np.pi
+    off = float(case['grid'].get('offset') or 0.0)
+    if abs(float(lon_want[0]) - off * 180 / np.pi) > 1e-9:
+      return out.fail(what='harness self-check: Grid.nodal_axes does not start at the longitude offset')
+    if not np.allclose(ds['lon'].values, lon_want, rtol=0, atol=1e-9):
+      return out.fail(what='lon coordinate labels are not the grid longitudes (offset included)',
+                      got=ds['lon'].values[:3], want=lon_want[:3], longitude_offset=off)
+    if not np.allclose(ds['lat'].values, lat_want, rtol=0, atol=1e-9):
+      return out.fail(what='lat coordinate labels are not the grid latitudes', got=ds['lat'].values[:3], want=lat_want[:3])
+  else:
+    mk, lk = (np.asarray(a) for a in g.modal_axes)
+    if not (np.array_equal(ds['longitudinal_mode'].values, mk) and np.array_equal(ds['total_wavenumber'].values, lk)):
+      return out.fail(what='modal coordinate labels are not the wavenumbers of the layout')
   if T and not np.array_equal(ds['time'].values, times):
     return out.fail(what='time coordinate values wrong')
   return out
